@@ -13,6 +13,7 @@ package main
 import (
 	"context"
 	"fmt"
+	"github.com/olric-data/olric/internal/cluster/partitions"
 	"math/rand"
 	"sort"
 	"strings"
@@ -325,6 +326,33 @@ func c02Child(ctx *runCtx, spec string) {
 			return
 		}
 		second := c.Members[cs.Stop[1]]
+		// adversarial choice of the second member to stop: the one that holds a copy of the key with the fewest
+		// copies (on a correct tree every key has its full set of copies again and the choice does not matter)
+		fewest := 1 << 30
+		for _, k := range w.keys {
+			var holders []*cluster.Member
+			for _, m := range c.Live() {
+				_, p := m.V.DMap.VerifEntry(partitions.PRIMARY, w.dmap, k)
+				_, b := m.V.DMap.VerifEntry(partitions.BACKUP, w.dmap, k)
+				if p || b {
+					holders = append(holders, m)
+				}
+			}
+			ctx.rep.Count(fmt.Sprintf("lagging_target_keys_with_%d_holders", len(holders)), 1)
+			if len(holders) > 0 && len(holders) < fewest {
+				fewest = len(holders)
+				second = holders[0]
+			}
+		}
+		ctx.rep.Count(fmt.Sprintf("lagging_target_second_stop_chosen_with_fewest_copies_%d", fewest), 1)
+		delete(victims, c.Members[cs.Stop[1]])
+		victims[second] = true
+		survivors = nil
+		for _, m := range c.Members {
+			if !victims[m] {
+				survivors = append(survivors, m)
+			}
+		}
 		if cs.Mode == "graceful" {
 			c.StopGraceful(second)
 		} else {
@@ -603,8 +631,10 @@ func c02Cases(tier string, seed int64) []c02Case {
 		}
 		add(c02Case{N: 3, R: 3, P: 7, Stop: []int{2}, Mode: "graceful", Instant: "idle", Balance: true})
 		add(c02Case{N: 4, R: 3, P: 23, Stop: []int{3, 0}, Mode: "abrupt", Instant: "sequential", RR: true})
-		add(c02Case{N: 4, R: 3, P: 23, Stop: []int{3, 1}, Mode: "abrupt", Instant: "lagging-target"})
-		add(c02Case{N: 4, R: 3, P: 31, Stop: []int{1, 3}, Mode: "graceful", Instant: "lagging-target"})
+		for k, st := range [][]int{{3, 1}, {1, 3}, {2, 1}, {0, 2}, {3, 2}, {1, 2}, {2, 3}, {0, 1}} {
+			// (the second member to stop is chosen by the case itself, see there)
+			add(c02Case{N: 4, R: 3, P: []uint64{61, 271}[(k/4)%2], Stop: st, Mode: []string{"abrupt", "graceful"}[k%2], Instant: "lagging-target"})
+		}
 		return cs
 	}
 	for _, n := range []int{3, 4, 5} {
